@@ -1,6 +1,9 @@
 import Aiorpcx.C17.Meets
 import Aiorpcx.C17.Recv
 import Aiorpcx.C17.FactsTie
+import Aiorpcx.C17.FactsTie2
+import Aiorpcx.C17.FactsTie3
+import Aiorpcx.C17.FactsTie4
 import Aiorpcx.C17.Prefix
 import Aiorpcx.C17.Sent
 /-!
@@ -343,12 +346,24 @@ theorem recv_sizes_bounded {cfg : Cfg} (hg : GoodCfg cfg) (oracle : Nat → Nat)
 
 /-! ## `_connect_one` and `_detect_proxy` -/
 
-/-- how one `getaddrinfo` entry ends: `OSError` from `sock_connect`, or the handshake's outcome -/
+/-- how one `getaddrinfo` entry ends: `OSError` from `socket.socket()` (which escapes, see
+    `isSocketFails`) or from `sock_connect`, the handshake's outcome, or - the handshake
+    having succeeded - `OSError` from `getpeername()` -/
 def attemptOutcome (cfg : Cfg) : Attempt → Option PyExc
   | .connectFails => some .osError
+  | .socketFails => some .osError
   | .talks s o => (handshake o (Client.init cfg) ⟨s, 0⟩).outcome
+  | .peernameFails s o =>
+    match (handshake o (Client.init cfg) ⟨s, 0⟩).outcome with
+    | none => some .osError
+    | some e => some e
 
 def isSuccess (cfg : Cfg) (a : Attempt) : Bool := (attemptOutcome cfg a).isNone
+
+/-- `socket.socket(family)` raises: it sits outside the `try`, so the `OSError` escapes -/
+def isSocketFails : Attempt → Bool
+  | .socketFails => true
+  | _ => false
 
 /-- the exception `_connect_one` is left holding after trying all entries -/
 def lastExc (cfg : Cfg) : List Attempt → Option PyExc → Option PyExc
@@ -362,59 +377,174 @@ theorem lastExc_getLast (cfg : Cfg) : ∀ (as : List Attempt) (l : Option PyExc)
     have := lastExc_getLast cfg (b :: as) (attemptOutcome cfg a) (by simp)
     simpa [lastExc, List.getLast_cons_cons] using this
 
-theorem attemptOutcome_good {cfg : Cfg} (hg : GoodCfg cfg) (a : Attempt) :
-    attemptOutcome cfg a = none ∨ ∃ e, attemptOutcome cfg a = some e ∧ isCaught e = true := by
-  cases a with
-  | connectFails => exact Or.inr ⟨_, rfl, rfl⟩
-  | talks s o =>
-    rcases no_other_exception hg o s 0 with h | h | h
-    · exact Or.inl h
-    · exact Or.inr ⟨_, h, rfl⟩
-    · exact Or.inr ⟨_, h, rfl⟩
+theorem handshake_outcome_good {cfg : Cfg} (hg : GoodCfg cfg) (s : Bytes) (o : Nat → Nat) :
+    (handshake o (Client.init cfg) ⟨s, 0⟩).outcome = none ∨
+    ∃ e, (handshake o (Client.init cfg) ⟨s, 0⟩).outcome = some e ∧ isCaught e = true := by
+  rcases no_other_exception hg o s 0 with h | h | h
+  · exact Or.inl h
+  · exact Or.inr ⟨_, h, rfl⟩
+  · exact Or.inr ⟨_, h, rfl⟩
 
-/-- `_connect_one` returns a socket iff some entry's handshake succeeds (the first such entry
-    ends the loop); otherwise it returns the exception of the last entry; nothing escapes. -/
+/-- an entry that neither succeeds nor fails in `socket.socket()` is skipped: the loop goes
+    on to the next entry holding this entry's exception -/
+theorem connectOne_skip {cfg : Cfg} (hg : GoodCfg cfg) (b : Attempt) (rest : List Attempt)
+    (i : Nat) (last : Option PyExc) (h1 : isSuccess cfg b = false) (h2 : isSocketFails b = false) :
+    connectOne (.ok cfg) (b :: rest) i last =
+      connectOne (.ok cfg) rest (i + 1) (attemptOutcome cfg b) := by
+  cases b with
+  | connectFails => simp [connectOne, attemptOutcome]
+  | socketFails => simp [isSocketFails] at h2
+  | talks s o =>
+    rcases handshake_outcome_good hg s o with h | ⟨e, h, hc⟩
+    · simp [isSuccess, attemptOutcome, h] at h1
+    · simp [connectOne, attemptOutcome, h, hc]
+  | peernameFails s o =>
+    rcases handshake_outcome_good hg s o with h | ⟨e, h, hc⟩
+    · simp [connectOne, attemptOutcome, h]
+    · simp [connectOne, attemptOutcome, h, hc]
+
+theorem connectOne_success {cfg : Cfg} (b : Attempt) (rest : List Attempt) (i : Nat)
+    (last : Option PyExc) (h1 : isSuccess cfg b = true) :
+    ∃ u, connectOne (.ok cfg) (b :: rest) i last = .sock i u := by
+  cases b with
+  | connectFails => simp [isSuccess, attemptOutcome] at h1
+  | socketFails => simp [isSuccess, attemptOutcome] at h1
+  | talks s o =>
+    simp only [isSuccess, attemptOutcome, Option.isNone_iff_eq_none] at h1
+    exact ⟨(handshake o (Client.init cfg) ⟨s, 0⟩).unread, by simp [connectOne, h1]⟩
+  | peernameFails s o =>
+    simp only [isSuccess, attemptOutcome] at h1
+    split at h1 <;> simp at h1
+
+/-- `_connect_one` returns a socket iff some entry's handshake succeeds before any entry fails
+    in `socket.socket()` (the first such entry ends the loop); if no entry succeeds and none
+    fails in `socket.socket()` it returns the exception of the last entry; the only exceptions
+    that escape are the `OSError` of `socket.socket()` and the `UnboundLocalError` of an empty
+    `getaddrinfo` result. -/
 theorem connectOne_spec {cfg : Cfg} (hg : GoodCfg cfg) :
     ∀ (as : List Attempt) (i : Nat) (last : Option PyExc),
       match connectOne (.ok cfg) as i last with
       | .sock _ _ => as.any (isSuccess cfg) = true
-      | .returned e => as.any (isSuccess cfg) = false ∧ lastExc cfg as last = some e
-      | .escaped _ => as = [] ∧ last = none
+      | .returned e => as.any (isSuccess cfg) = false ∧ as.any isSocketFails = false ∧
+          lastExc cfg as last = some e
+      | .escaped e => (as = [] ∧ last = none) ∨ (e = .osError ∧ as.any isSocketFails = true)
   | [], i, none => by simp [connectOne]
   | [], i, some e => by simp [connectOne, lastExc]
   | a :: as, i, last => by
-    have ih := fun l => connectOne_spec hg as (i + 1) l
-    cases a with
-    | connectFails =>
-      have := ih (some .osError)
-      simp only [connectOne]
-      split <;> rename_i heq <;> rw [heq] at this
-      · simpa [isSuccess, attemptOutcome] using this
-      · simpa [isSuccess, attemptOutcome, lastExc] using this
-      · simp at this
-    | talks s o =>
-      simp only [connectOne]
-      rcases attemptOutcome_good hg (.talks s o) with h | ⟨e, h, hc⟩
-      · simp only [attemptOutcome] at h
-        simp [h, isSuccess, attemptOutcome]
-      · simp only [attemptOutcome] at h
-        simp only [h, hc, if_true]
-        have := ih (some e)
-        split <;> rename_i heq <;> rw [heq] at this
-        · simpa [isSuccess, attemptOutcome, h] using this
-        · simpa [isSuccess, attemptOutcome, h, lastExc] using this
-        · simp at this
+    by_cases hs : isSuccess cfg a = true
+    · obtain ⟨u, hu⟩ := connectOne_success a as i last hs
+      rw [hu]; simp [hs]
+    · have hs' : isSuccess cfg a = false := by simpa using hs
+      by_cases hf : isSocketFails a = true
+      · cases a <;> simp [isSocketFails] at hf
+        simp [connectOne, isSocketFails]
+      · have hf' : isSocketFails a = false := by simpa using hf
+        rw [connectOne_skip hg a as i last hs' hf']
+        have ih := connectOne_spec hg as (i + 1) (attemptOutcome cfg a)
+        split <;> rename_i heq <;> rw [heq] at ih
+        · simp [hs', ih]
+        · simp only [List.any_cons, hs', hf', Bool.false_or, lastExc]
+          exact ih
+        · rcases ih with ⟨rfl, h0⟩ | ⟨he, h1⟩
+          · simp [isSuccess, h0] at hs'
+          · exact Or.inr ⟨he, by simp [h1]⟩
+
+/-- the first entry whose handshake succeeds wins, when every earlier entry merely failed -/
+theorem connectOne_first_success {cfg : Cfg} (hg : GoodCfg cfg) :
+    ∀ (pre : List Attempt) (a : Attempt) (post : List Attempt) (i : Nat) (last : Option PyExc),
+      (∀ b ∈ pre, isSuccess cfg b = false ∧ isSocketFails b = false) → isSuccess cfg a = true →
+      ∃ u, connectOne (.ok cfg) (pre ++ a :: post) i last = .sock (i + pre.length) u
+  | [], a, post, i, last, _, ha => by simpa using connectOne_success a post i last ha
+  | b :: pre, a, post, i, last, hpre, ha => by
+    obtain ⟨h1, h2⟩ := hpre b (by simp)
+    obtain ⟨u, hu⟩ := connectOne_first_success hg pre a post (i + 1) (attemptOutcome cfg b)
+      (fun x hx => hpre x (by simp [hx])) ha
+    refine ⟨u, ?_⟩
+    rw [List.cons_append, connectOne_skip hg b _ i last h1 h2, hu]
+    congr 1
+    simp; omega
+
+/-- **socket creation failing** (`socket.socket(family)` raising, e.g. `EAFNOSUPPORT`) is not
+    inside the `try`: the `OSError` escapes `_connect_one` as soon as such an entry is reached,
+    the remaining entries are not tried -/
+theorem connectOne_socket_failure {cfg : Cfg} (hg : GoodCfg cfg) :
+    ∀ (pre post : List Attempt) (i : Nat) (last : Option PyExc),
+      (∀ b ∈ pre, isSuccess cfg b = false ∧ isSocketFails b = false) →
+      connectOne (.ok cfg) (pre ++ .socketFails :: post) i last = .escaped .osError
+  | [], post, i, last, _ => by simp [connectOne]
+  | b :: pre, post, i, last, hpre => by
+    obtain ⟨h1, h2⟩ := hpre b (by simp)
+    rw [List.cons_append, connectOne_skip hg b _ i last h1 h2]
+    exact connectOne_socket_failure hg pre post _ _ (fun x hx => hpre x (by simp [hx]))
+
+theorem isSuccess_talks_iff {cfg : Cfg} (hg : GoodCfg cfg) (s : Bytes) (o : Nat → Nat) :
+    isSuccess cfg (.talks s o) = true ↔ ∃ n, verdictFor cfg s = .granted n := by
+  rw [← success_iff_granted hg o s 0]
+  simp [isSuccess, attemptOutcome]
+
+theorem isSuccess_peername (cfg : Cfg) (s : Bytes) (o : Nat → Nat) :
+    isSuccess cfg (.peernameFails s o) = false := by
+  simp only [isSuccess, attemptOutcome]
+  split <;> rfl
+
+/-- the all-zero granting reply most proxies send (`BND.ADDR` 0.0.0.0, `BND.PORT` 0) -/
+def grant5 : Bytes := [5, 0, 5, 0, 0, 1, 0, 0, 0, 0, 0, 0]
+
+/-- **the `try` of one proxy attempt, in the model** - the scenarios `Facts.C17.tryScope`
+    observes on the real `create_connection` (`facts_exceptions`): a raising constructor and a
+    raising `socket.socket()` escape at once; a refused `sock_connect`, a handshake ending in a
+    SOCKS error and a raising `getpeername()` are followed by the next address (here: which
+    grants, with the all-zero reply), for every segmentation. -/
+theorem try_scope_model (o : Nat → Nat) :
+    (∀ e a as i last, connectOne (.error e) (a :: as) i last = .escaped e) ∧
+    connectOne (.ok cfg5n) [.socketFails, .talks grant5 o] 0 none = .escaped .osError ∧
+    (∃ u, connectOne (.ok cfg5n) [.connectFails, .talks grant5 o] 0 none = .sock 1 u) ∧
+    (∃ u, connectOne (.ok cfg5n) [.talks [5, 255] o, .talks grant5 o] 0 none = .sock 1 u) ∧
+    (∃ u, connectOne (.ok cfg5n) [.peernameFails grant5 o, .talks grant5 o] 0 none = .sock 1 u) := by
+  have hg : GoodCfg cfg5n := GoodCfg.s5 _ _ false
+  have hgrant : isSuccess cfg5n (.talks grant5 o) = true :=
+    (isSuccess_talks_iff hg grant5 o).2 ⟨12, by decide⟩
+  have hrefuse : isSuccess cfg5n (.talks [5, 255] o) = false := by
+    cases h : isSuccess cfg5n (.talks [5, 255] o) with
+    | false => rfl
+    | true =>
+      obtain ⟨n, hn⟩ := (isSuccess_talks_iff hg [5, 255] o).1 h
+      have hv : verdictFor cfg5n [5, 255] = .refused := by decide
+      rw [hv] at hn
+      cases hn
+  refine ⟨fun _ _ _ _ _ => rfl, rfl, ?_, ?_, ?_⟩
+  · simpa using connectOne_first_success hg [.connectFails] _ [] 0 none
+      (by intro b hb; simp at hb; subst hb; exact ⟨rfl, rfl⟩) hgrant
+  · simpa using connectOne_first_success hg [.talks [5, 255] o] _ [] 0 none
+      (by intro b hb; simp at hb; subst hb; exact ⟨hrefuse, rfl⟩) hgrant
+  · simpa using connectOne_first_success hg [.peernameFails grant5 o] _ [] 0 none
+      (by intro b hb; simp at hb; subst hb; exact ⟨isSuccess_peername _ _ _, rfl⟩) hgrant
+
+/-- **`create_connection` to one remote address through a proxy with one address** is the
+    handshake: it succeeds iff the handshake does and otherwise raises the handshake's
+    exception (this is how the harness drives the handshake: through the public API) -/
+theorem create_connection_single {cfg : Cfg} (hg : GoodCfg cfg) (s : Bytes) (o : Nat → Nat) :
+    createConnection1 (.ok cfg) [.talks s o] =
+      match (handshake o (Client.init cfg) ⟨s, 0⟩).outcome with
+      | none => .connected 0 (handshake o (Client.init cfg) ⟨s, 0⟩).unread
+      | some e => .raised e := by
+  rcases handshake_outcome_good hg s o with h | ⟨e, h, hc⟩
+  · simp [createConnection1, connectOne, h, OneRes.toAddr, connect, connectLoop, connectLoopWith]
+  · simp [createConnection1, connectOne, h, hc, OneRes.toAddr, connect, connectLoop,
+      connectLoopWith, aggregate]
 
 /-- the protocol object `_detect_proxy` builds -/
 def detectCfg (p : Proto) (a : Auth) : Except PyExc Cfg :=
   if p = .socks4a then mkCfg p (.name wwwAppleCom) 80 a
   else mkCfg p (.ipv4 (vec4 8 8 8 8)) 53 a
 
-/-- **Detection verdict.**  `_detect_proxy` answers `True` exactly when some entry's handshake
-    succeeds or the last entry tried ends in `SOCKSFailure` (a proxy that refuses is still a
-    proxy); `False` otherwise; it raises nothing. -/
+/-- **Detection verdict.**  When no entry fails in `socket.socket()`, `_detect_proxy` answers
+    `True` exactly when some entry's handshake succeeds (and `getpeername()` works) or the
+    last entry tried ends in `SOCKSFailure` (a proxy that refuses is still a proxy); `False`
+    otherwise; it raises nothing. -/
 theorem detect_verdict (p : Proto) (a : Auth) (cfg : Cfg) (hmk : detectCfg p a = .ok cfg)
-    (hg : GoodCfg cfg) (as : List Attempt) (hne : as ≠ []) :
+    (hg : GoodCfg cfg) (as : List Attempt) (hne : as ≠ [])
+    (hns : as.any isSocketFails = false) :
     detectProxy p a as =
       .ok (as.any (isSuccess cfg) ||
            attemptOutcome cfg (as.getLast hne) == some .socksFailure) := by
@@ -424,11 +554,36 @@ theorem detect_verdict (p : Proto) (a : Auth) (cfg : Cfg) (hmk : detectCfg p a =
   simp only [detectProxy, hmk']
   split <;> rename_i heq <;> rw [heq] at hspec
   · simp [hspec]
-  · obtain ⟨h1, h2⟩ := hspec
+  · obtain ⟨h1, _, h2⟩ := hspec
     rw [lastExc_getLast cfg as none hne] at h2
     rw [h1, h2]
     cases ‹PyExc› <;> rfl
-  · exact absurd hspec.1 hne
+  · rcases hspec with ⟨h, _⟩ | ⟨_, h⟩
+    · exact absurd h hne
+    · rw [hns] at h; simp at h
+
+/-- ... and when an entry does fail in `socket.socket()` before any handshake succeeded, the
+    `OSError` escapes `_detect_proxy` instead of a verdict (observed behaviour of the code,
+    outside the property: the text speaks of reply bytes only) -/
+theorem detect_socket_failure (p : Proto) (a : Auth) (cfg : Cfg) (hmk : detectCfg p a = .ok cfg)
+    (hg : GoodCfg cfg) (pre post : List Attempt)
+    (hpre : ∀ b ∈ pre, isSuccess cfg b = false ∧ isSocketFails b = false) :
+    detectProxy p a (pre ++ .socketFails :: post) = .error .osError := by
+  have hmk' : (if p = .socks4a then mkCfg p (.name wwwAppleCom) 80 a
+      else mkCfg p (.ipv4 (vec4 8 8 8 8)) 53 a) = .ok cfg := hmk
+  simp only [detectProxy, hmk', connectOne_socket_failure hg pre post 0 none hpre]
+
+/-- a granted handshake followed by a failing `getpeername()` is not a success: with that as
+    the only entry the verdict is `False` although the replies grant the request -/
+example : detectProxy .socks5 none [.peernameFails [5, 0, 5, 0, 0, 1, 0, 0, 0, 0, 0, 0] (fun _ => 99)]
+    = .ok false := by
+  have h : handshake (fun _ => 99) (Client.init (.s5 [1, 8, 8, 8, 8, 0, 53] [] [0]))
+      ⟨[5, 0, 5, 0, 0, 1, 0, 0, 0, 0, 0, 0], 0⟩ =
+      ⟨none, [[5, 1, 0], [5, 1, 0, 1, 8, 8, 8, 8, 0, 53]], [], [(2, 2), (5, 5), (5, 5)]⟩ :=
+    handshakeFuel_sound _ 40 _ _ _ (by decide +kernel)
+  have hm : mkCfg .socks5 (.ipv4 (vec4 8 8 8 8)) 53 none = .ok (.s5 [1, 8, 8, 8, 8, 0, 53] [] [0]) := by
+    decide
+  simp [detectProxy, hm, connectOne, h]
 
 /-- the detection destinations are expressible and (for credentials with a UTF-8 form) the
     resulting object is a `GoodCfg`; for SOCKS5 any accepted credentials will do -/
@@ -508,14 +663,17 @@ def excsOf : List AddrOutcome → List (PyExc × Nat)
   | .exc e r :: as => (e, r) :: excsOf as
   | _ :: as => excsOf as
 
-theorem connectLoop_pre : ∀ (pre tail : List AddrOutcome) (i : Nat) (acc : List (PyExc × Nat)),
+theorem connectLoop_pre (agg : List (PyExc × Nat) → PyExc) :
+    ∀ (pre tail : List AddrOutcome) (i : Nat) (acc : List (PyExc × Nat)),
     (∀ o ∈ pre, ∃ e r, o = AddrOutcome.exc e r) →
-    connectLoop (pre ++ tail) i acc = connectLoop tail (i + pre.length) (acc ++ excsOf pre)
+    connectLoopWith agg (pre ++ tail) i acc =
+      connectLoopWith agg tail (i + pre.length) (acc ++ excsOf pre)
   | [], tail, i, acc, _ => by simp [excsOf]
   | o :: pre, tail, i, acc, h => by
     obtain ⟨e, r, rfl⟩ := h o (by simp)
-    have ih := connectLoop_pre pre tail (i + 1) (acc ++ [(e, r)]) (fun o ho => h o (by simp [ho]))
-    simp only [List.cons_append, connectLoop, excsOf, List.length_cons]
+    have ih := connectLoop_pre agg pre tail (i + 1) (acc ++ [(e, r)])
+      (fun o ho => h o (by simp [ho]))
+    simp only [List.cons_append, connectLoopWith, excsOf, List.length_cons]
     rw [ih]
     congr 1
     · omega
@@ -529,11 +687,66 @@ theorem excsOf_all_exc : ∀ (l : List AddrOutcome), (∀ o ∈ l, ∃ e r, o = 
     have ih := excsOf_all_exc l (fun o ho => h o (by simp [ho])) e r
     simp only [excsOf, List.mem_cons, Prod.mk.injEq, AddrOutcome.exc.injEq, ih]
 
-/-- **`_connect`.**  (1) The first address whose `_connect_one` yields a socket wins (every
-    earlier address having returned an exception); (2) an exception escaping `_connect_one`
-    propagates at once; (3) when every address returned an exception and all their reprs
-    coincide, the first of them is raised; (4) when the reprs differ, an `OSError`;
-    (5) `assert remote_addresses`. -/
+/-- when every address returned an exception, `_connect` raises the aggregate of them -/
+theorem connect_all_exc (agg : List (PyExc × Nat) → PyExc) (l : List AddrOutcome)
+    (h : ∀ o ∈ l, ∃ e r, o = AddrOutcome.exc e r) :
+    connectLoopWith agg l 0 [] = .raised (agg (excsOf l)) := by
+  have := connectLoop_pre agg l [] 0 [] h
+  simp only [List.append_nil, List.nil_append] at this
+  rw [this]
+  simp [connectLoopWith]
+
+/-- **the aggregate exception** (repaired `_connect`, F28): it is an `OSError` only if some
+    address failed with something that is not a `SOCKSError` (a socket-level failure); when
+    every address failed at SOCKS level it is a `SOCKSError` - `SOCKSFailure` if all are
+    refusals; and if it is a `SOCKSFailure` some address was refused. -/
+theorem aggregate_sound (l : List (PyExc × Nat)) (hne : l ≠ []) :
+    (aggregate l = .osError → ∃ x ∈ l, isSocksError x.1 = false) ∧
+    ((∀ x ∈ l, isSocksError x.1 = true) → isSocksError (aggregate l) = true) ∧
+    ((∀ x ∈ l, x.1 = .socksFailure) → aggregate l = .socksFailure) := by
+  cases l with
+  | nil => exact absurd rfl hne
+  | cons x rest =>
+    obtain ⟨e, r⟩ := x
+    simp only [aggregate]
+    by_cases hsame : rest.all (fun x => x.2 == r) = true
+    · simp only [hsame, if_true]
+      exact ⟨fun he => ⟨(e, r), by simp, by simp [he, isSocksError]⟩, fun h => h (e, r) (by simp),
+        fun h => h (e, r) (by simp)⟩
+    · simp only [hsame, Bool.false_eq_true, if_false]
+      by_cases hall : ((e, r) :: rest).all (fun x => isSocksError x.1) = true
+      · simp only [hall, if_true]
+        by_cases hf : ((e, r) :: rest).all (fun x => x.1 == .socksFailure) = true
+        · simp only [hf, if_true]
+          simp [isSocksError]
+        · simp only [hf, Bool.false_eq_true, if_false]
+          refine ⟨fun h => by simp at h, fun _ => by trivial, fun h => ?_⟩
+          exfalso; apply hf
+          rw [List.all_eq_true]
+          intro x hx
+          simp [h x hx]
+      · simp only [hall, Bool.false_eq_true, if_false]
+        refine ⟨fun _ => ?_, fun h => ?_, fun h => ?_⟩
+        · have hfalse := Bool.eq_false_iff.2 hall
+          rw [List.all_eq_false] at hfalse
+          obtain ⟨x, hx, hn⟩ := hfalse
+          exact ⟨x, hx, by simpa using hn⟩
+        · exfalso; apply hall
+          rw [List.all_eq_true]
+          exact fun x hx => h x hx
+        · exfalso; apply hall
+          rw [List.all_eq_true]
+          intro x hx
+          simp [h x hx, isSocksError]
+
+/-- **`_connect`** (repaired, F28).  (1) The first address whose `_connect_one` yields a socket
+    wins (every earlier address having returned an exception); (2) an exception escaping
+    `_connect_one` propagates at once; (3) when every address returned an exception and all
+    their reprs coincide, the first of them is raised; (4) when the reprs differ and every
+    exception is a `SOCKSFailure`, a `SOCKSFailure` is raised; (5) when they differ, all are
+    `SOCKSError`s and not all of them `SOCKSFailure`s, a `SOCKSProtocolError`; (6) when the reprs
+    differ and some address failed at socket level, an `OSError`; (7) `assert
+    remote_addresses`. -/
 theorem connect_spec :
     (∀ pre u post, (∀ o ∈ pre, ∃ e r, o = AddrOutcome.exc e r) →
       connect (pre ++ .sock u :: post) = .connected pre.length u) ∧
@@ -541,23 +754,30 @@ theorem connect_spec :
       connect (pre ++ .escaped e :: post) = .raised e) ∧
     (∀ e r rest, (∀ o ∈ rest, ∃ e', o = AddrOutcome.exc e' r) →
       connect (.exc e r :: rest) = .raised e) ∧
+    (∀ r rest, (∀ o ∈ rest, ∃ r', o = AddrOutcome.exc .socksFailure r') →
+      (∃ e' r', AddrOutcome.exc e' r' ∈ rest ∧ r' ≠ r) →
+      connect (.exc .socksFailure r :: rest) = .raised .socksFailure) ∧
+    (∀ e r rest, (∀ o ∈ rest, ∃ e' r', o = AddrOutcome.exc e' r' ∧ isSocksError e' = true) →
+      isSocksError e = true → (∃ e' r', AddrOutcome.exc e' r' ∈ rest ∧ r' ≠ r) →
+      (e ≠ .socksFailure ∨ ∃ e' r', AddrOutcome.exc e' r' ∈ rest ∧ e' ≠ .socksFailure) →
+      connect (.exc e r :: rest) = .raised .socksProtocolError) ∧
     (∀ e r rest, (∀ o ∈ rest, ∃ e' r', o = AddrOutcome.exc e' r') →
       (∃ e' r', AddrOutcome.exc e' r' ∈ rest ∧ r' ≠ r) →
+      (isSocksError e = false ∨ ∃ e' r', AddrOutcome.exc e' r' ∈ rest ∧ isSocksError e' = false) →
       connect (.exc e r :: rest) = .raised .osError) ∧
     connect [] = .raised .assertionError := by
-  refine ⟨?_, ?_, ?_, ?_, rfl⟩
+  refine ⟨?_, ?_, ?_, ?_, ?_, ?_, rfl⟩
   · intro pre u post h
-    simp [connect, connectLoop_pre pre _ 0 [] h, connectLoop]
+    simp [connect, connectLoop, connectLoop_pre aggregate pre _ 0 [] h, connectLoopWith]
   · intro pre e post h
-    simp [connect, connectLoop_pre pre _ 0 [] h, connectLoop]
+    simp [connect, connectLoop, connectLoop_pre aggregate pre _ 0 [] h, connectLoopWith]
   · intro e r rest h
     have hall : ∀ o ∈ rest, ∃ e' r', o = AddrOutcome.exc e' r' :=
       fun o ho => let ⟨e', he⟩ := h o ho; ⟨e', r, he⟩
-    have := connectLoop_pre (.exc e r :: rest) [] 0 []
-      (by intro o ho; simp at ho; rcases ho with rfl | ho; exact ⟨e, r, rfl⟩; exact hall o ho)
-    simp only [List.append_nil, List.nil_append, excsOf] at this
-    show connectLoop (.exc e r :: rest) 0 [] = _
-    rw [this]
+    have hl : ∀ o ∈ AddrOutcome.exc e r :: rest, ∃ e' r', o = AddrOutcome.exc e' r' := by
+      intro o ho; simp at ho; rcases ho with rfl | ho; exact ⟨e, r, rfl⟩; exact hall o ho
+    show connectLoopWith aggregate _ 0 [] = _
+    rw [connect_all_exc aggregate _ hl]
     have hr : (excsOf rest).all (fun x => x.2 == r) = true := by
       rw [List.all_eq_true]
       intro x hx
@@ -566,19 +786,163 @@ theorem connect_spec :
       obtain ⟨e'', he⟩ := h _ this
       simp at he
       simp [he.2]
-    simp [connectLoop, hr]
-  · intro e r rest hall hdiff
-    have := connectLoop_pre (.exc e r :: rest) [] 0 []
-      (by intro o ho; simp at ho; rcases ho with rfl | ho; exact ⟨e, r, rfl⟩; exact hall o ho)
-    simp only [List.append_nil, List.nil_append, excsOf] at this
-    show connectLoop (.exc e r :: rest) 0 [] = _
-    rw [this]
+    simp [excsOf, aggregate, hr]
+  · intro r rest h hdiff
+    have hall : ∀ o ∈ rest, ∃ e' r', o = AddrOutcome.exc e' r' :=
+      fun o ho => let ⟨r', h1⟩ := h o ho; ⟨_, r', h1⟩
+    have hl : ∀ o ∈ AddrOutcome.exc .socksFailure r :: rest, ∃ e' r', o = AddrOutcome.exc e' r' := by
+      intro o ho; simp at ho; rcases ho with rfl | ho; exact ⟨_, r, rfl⟩; exact hall o ho
+    show connectLoopWith aggregate _ 0 [] = _
+    rw [connect_all_exc aggregate _ hl]
+    have hne : excsOf (AddrOutcome.exc .socksFailure r :: rest) ≠ [] := by simp [excsOf]
+    have hf : ∀ x ∈ excsOf (AddrOutcome.exc .socksFailure r :: rest), x.1 = .socksFailure := by
+      intro x hx
+      obtain ⟨e', r'⟩ := x
+      have := (excsOf_all_exc _ hl e' r').1 hx
+      simp only [List.mem_cons, AddrOutcome.exc.injEq] at this
+      rcases this with ⟨h1, _⟩ | h2
+      · exact h1
+      · obtain ⟨r'', h3⟩ := h _ h2
+        simp at h3
+        exact h3.1
+    rw [(aggregate_sound _ hne).2.2 hf]
+  · intro e r rest h he hdiff hnf
+    have hall : ∀ o ∈ rest, ∃ e' r', o = AddrOutcome.exc e' r' :=
+      fun o ho => let ⟨e', r', h1, _⟩ := h o ho; ⟨e', r', h1⟩
+    have hl : ∀ o ∈ AddrOutcome.exc e r :: rest, ∃ e' r', o = AddrOutcome.exc e' r' := by
+      intro o ho; simp at ho; rcases ho with rfl | ho; exact ⟨e, r, rfl⟩; exact hall o ho
+    show connectLoopWith aggregate _ 0 [] = _
+    rw [connect_all_exc aggregate _ hl]
     have hr : (excsOf rest).all (fun x => x.2 == r) = false := by
       obtain ⟨e', r', hm, hne⟩ := hdiff
       have := (excsOf_all_exc rest hall e' r').2 hm
       rw [List.all_eq_false]
       exact ⟨(e', r'), this, by simp [hne]⟩
-    simp [connectLoop, hr]
+    have hs : ((e, r) :: excsOf rest).all (fun x => isSocksError x.1) = true := by
+      rw [List.all_eq_true]
+      intro x hx
+      simp only [List.mem_cons] at hx
+      rcases hx with rfl | hx
+      · exact he
+      · obtain ⟨e', r'⟩ := x
+        have := (excsOf_all_exc rest hall e' r').1 hx
+        obtain ⟨e'', r'', h1, h2⟩ := h _ this
+        simp at h1
+        simp [h1.1, h2]
+    have hnot : ((e, r) :: excsOf rest).all (fun x => x.1 == .socksFailure) = false := by
+      rw [List.all_eq_false]
+      rcases hnf with h1 | ⟨e', r', hm, h1⟩
+      · exact ⟨(e, r), by simp, by simpa using h1⟩
+      · exact ⟨(e', r'), by simp [(excsOf_all_exc rest hall e' r').2 hm], by simpa using h1⟩
+    simp only [excsOf, aggregate, hr, Bool.false_eq_true, if_false, hs, if_true, hnot]
+  · intro e r rest hall hdiff hnon
+    have hl : ∀ o ∈ AddrOutcome.exc e r :: rest, ∃ e' r', o = AddrOutcome.exc e' r' := by
+      intro o ho; simp at ho; rcases ho with rfl | ho; exact ⟨e, r, rfl⟩; exact hall o ho
+    show connectLoopWith aggregate _ 0 [] = _
+    rw [connect_all_exc aggregate _ hl]
+    have hr : (excsOf rest).all (fun x => x.2 == r) = false := by
+      obtain ⟨e', r', hm, hne⟩ := hdiff
+      have := (excsOf_all_exc rest hall e' r').2 hm
+      rw [List.all_eq_false]
+      exact ⟨(e', r'), this, by simp [hne]⟩
+    have hs : ((e, r) :: excsOf rest).all (fun x => isSocksError x.1) = false := by
+      rw [List.all_eq_false]
+      rcases hnon with h1 | ⟨e', r', hm, h1⟩
+      · exact ⟨(e, r), by simp, by simp [h1]⟩
+      · exact ⟨(e', r'), by simp [(excsOf_all_exc rest hall e' r').2 hm], by simp [h1]⟩
+    simp [excsOf, aggregate, hr, hs]
+
+/-- **No other exception out of `_connect`** (repaired): when every address ends in a returned
+    exception, what `_connect` raises is an `OSError` only if some address failed with
+    something other than a `SOCKSError`; if all failed at SOCKS level it is a `SOCKSError`. -/
+theorem connect_no_other_exception (l : List AddrOutcome) (hne : l ≠ [])
+    (h : ∀ o ∈ l, ∃ e r, o = AddrOutcome.exc e r) :
+    ∃ x, connect l = .raised x ∧
+      (x = .osError → ∃ e r, AddrOutcome.exc e r ∈ l ∧ isSocksError e = false) ∧
+      ((∀ e r, AddrOutcome.exc e r ∈ l → isSocksError e = true) → isSocksError x = true) := by
+  have hne' : excsOf l ≠ [] := by
+    cases l with
+    | nil => exact absurd rfl hne
+    | cons o t => obtain ⟨e, r, rfl⟩ := h o (by simp); simp [excsOf]
+  obtain ⟨h1, h2, _⟩ := aggregate_sound (excsOf l) hne'
+  refine ⟨aggregate (excsOf l), connect_all_exc aggregate l h, ?_, ?_⟩
+  · intro hx
+    obtain ⟨⟨e, r⟩, hm, hs⟩ := h1 hx
+    exact ⟨e, r, (excsOf_all_exc l h e r).1 hm, hs⟩
+  · intro hall
+    exact h2 (fun ⟨e, r⟩ hx => hall e r ((excsOf_all_exc l h e r).1 hx))
+
+/-- the full-strength statement about the **pinned** `_connect`: failures at SOCKS level only
+    never surface as anything but a `SOCKSError` -/
+def connect_no_other_exception_full_pinned : Prop :=
+  ∀ l : List AddrOutcome, l ≠ [] →
+    (∀ o ∈ l, ∃ e r, o = AddrOutcome.exc e r ∧ isSocksError e = true) →
+    ∃ x, connectPinned l = .raised x ∧ isSocksError x = true
+
+/-- **F28, pinned tree**: two addresses refused with different reply codes (SOCKS4 status 91,
+    then 92: two `SOCKSFailure`s with different reprs) make `_connect` raise a bare `OSError`
+    although no attempt failed at socket level; the repaired `_connect` raises `SOCKSFailure`. -/
+theorem connect_reply_only_oserror_pinned :
+    connectPinned [.exc .socksFailure 0, .exc .socksFailure 1] = .raised .osError ∧
+    connect [.exc .socksFailure 0, .exc .socksFailure 1] = .raised .socksFailure ∧
+    connect [.exc .socksFailure 0, .exc .socksProtocolError 1] = .raised .socksProtocolError ∧
+    connect [.exc .socksFailure 0, .exc .osError 1] = .raised .osError := by decide
+
+theorem connect_no_other_exception_full_pinned_fails : ¬ connect_no_other_exception_full_pinned := by
+  intro h
+  obtain ⟨x, h1, h2⟩ := h [.exc .socksFailure 0, .exc .socksFailure 1] (by simp)
+    (by intro o ho; simp at ho; rcases ho with rfl | rfl <;> exact ⟨_, _, rfl, rfl⟩)
+  have : x = .osError := by
+    have h3 : connectPinned [.exc .socksFailure 0, .exc .socksFailure 1] = .raised .osError := by
+      decide
+    rw [h3] at h1
+    exact (ConnectRes.raised.inj h1).symm
+  subst this
+  simp [isSocksError] at h2
+
+theorem aggregate_vs_pinned (acc : List (PyExc × Nat)) :
+    aggregatePinned acc = aggregate acc ∨
+    (aggregatePinned acc = .osError ∧ isSocksError (aggregate acc) = true) := by
+  cases acc with
+  | nil => exact Or.inl rfl
+  | cons x rest =>
+    obtain ⟨e, r⟩ := x
+    simp only [aggregatePinned, aggregate]
+    by_cases h1 : rest.all (fun x => x.2 == r) = true
+    · simp [h1]
+    · simp only [h1, Bool.false_eq_true, if_false]
+      by_cases h2 : ((e, r) :: rest).all (fun x => isSocksError x.1) = true
+      · simp only [h2, if_true]
+        right
+        refine ⟨by trivial, ?_⟩
+        split <;> rfl
+      · simp [h2]
+
+/-- **the repair changes nothing else**: the pinned and the repaired `_connect` agree on every
+    list of per-address outcomes, except where the pinned one raises the bare `OSError` for
+    failures at SOCKS level only - there the repaired one raises a `SOCKSError` -/
+theorem connectPinned_vs_connect (l : List AddrOutcome) :
+    connectPinned l = connect l ∨
+    (connectPinned l = .raised .osError ∧ ∃ x, connect l = .raised x ∧ isSocksError x = true) := by
+  have key : ∀ (l : List AddrOutcome) (i : Nat) (acc : List (PyExc × Nat)),
+      connectLoopWith aggregatePinned l i acc = connectLoopWith aggregate l i acc ∨
+      (connectLoopWith aggregatePinned l i acc = .raised .osError ∧
+        ∃ x, connectLoopWith aggregate l i acc = .raised x ∧ isSocksError x = true) := by
+    intro l
+    induction l with
+    | nil =>
+      intro i acc
+      simp only [connectLoopWith]
+      rcases aggregate_vs_pinned acc with h | ⟨h1, h2⟩
+      · exact Or.inl (by rw [h])
+      · exact Or.inr ⟨by rw [h1], _, rfl, h2⟩
+    | cons o t ih =>
+      intro i acc
+      cases o with
+      | sock u => exact Or.inl rfl
+      | escaped e => exact Or.inl rfl
+      | exc e r => simpa only [connectLoopWith] using ih (i + 1) (acc ++ [(e, r)])
+  exact key l 0 []
 
 example : connect [.exc .osError 1, .sock [7]] = .connected 1 [7] := by decide
 example : connect [.exc .socksFailure 1, .exc .socksFailure 1] = .raised .socksFailure := by decide
